@@ -328,6 +328,37 @@ pub fn name_containment_module() -> ZooModule {
     ZooModule { module: Module::simple("NameContainment", defs), conformance: true, group: "names".into(), meta: serde_json::Value::Null }
 }
 
+/// Many members: field / alternative numbers beyond 15 (two-octet protobuf keys start at 16) and
+/// beyond 31, presence bitmaps longer than a word of 32, choice indices beyond 31.
+pub fn many_members_module() -> ZooModule {
+    let ty = |i: usize| match i % 5 {
+        0 => Type::int(0, 255),
+        1 => Type::Boolean,
+        2 => Type::Str { cs: Charset::Utf8, size: Some(Size::range(0, Some(3), false)) },
+        3 => Type::int(-8, 7),
+        _ => Type::OctetString { size: Some(Size::range(0, Some(2), false)) },
+    };
+    let seq = Type::Sequence(Fields { comps: (0..40).map(|i| comp(&format!("m{i}"), ty(i), if i % 3 == 1 { Presence::Optional } else { Presence::Mandatory })).collect(), root: None });
+    let set = Type::Set(Fields {
+        comps: (0..20)
+            .map(|i| {
+                let mut c = comp(&format!("m{i}"), ty(i), if i % 4 == 2 { Presence::Optional } else { Presence::Mandatory });
+                c.tag = Some(Tag { class: TagClass::Context, number: (19 - i) as u32 });
+                c
+            })
+            .collect(),
+        root: None,
+    });
+    let choice = Type::Choice { alts: (0..40).map(|i| Alt { name: format!("a{i}"), tag: None, ty: ty(i) }).collect(), root: None };
+    let ext_seq = Type::Sequence(Fields { comps: (0..36).map(|i| comp(&format!("m{i}"), ty(i), if i >= 2 { Presence::Optional } else { Presence::Mandatory })).collect(), root: Some(2) });
+    ZooModule {
+        module: Module::simple("ManyMembers", vec![Def { name: "Seq40".into(), tag: None, ty: seq }, Def { name: "Set20".into(), tag: None, ty: set }, Def { name: "Choice40".into(), tag: None, ty: choice }, Def { name: "Ext34".into(), tag: None, ty: ext_seq }]),
+        conformance: true,
+        group: "many".into(),
+        meta: serde_json::Value::Null,
+    }
+}
+
 /// families added to the frozen fixed zoo after it was frozen (`zoogen <dir> append-extra`)
 pub fn extra_modules() -> Vec<ZooModule> {
     let mut out = Vec::new();
@@ -338,6 +369,7 @@ pub fn extra_modules() -> Vec<ZooModule> {
     }
     out.push(name_containment_module());
     out.extend(c03_nested_shapes());
+    out.push(many_members_module());
     out
 }
 
@@ -750,6 +782,18 @@ pub fn c16_pair_family() -> Vec<Fields> {
             }
             let third = Comp { name: "f2".into(), tag: Some(Tag { class: TagClass::Context, number: 7 }), ty: Type::Boolean, presence: Presence::Mandatory };
             out.push(Fields { comps: vec![comp("f0", cands[i].1.clone(), Presence::Mandatory), comp("f1", cands[j].1.clone(), Presence::Mandatory), third], root: None });
+        }
+    }
+    // an explicit tag that merely repeats the universal tag of the component's own type is still
+    // an explicit tag: no automatic tagging, the other (untagged) components keep their universal tags
+    for (own, ty) in [(2u32, Type::int(0, 7)), (1, Type::Boolean), (4, Type::OctetString { size: Some(Size::fixed(1, false)) }), (5, Type::Null)] {
+        for (key, other) in &cands {
+            if *key == own {
+                continue;
+            }
+            let mut redundant = comp("f0", ty.clone(), Presence::Mandatory);
+            redundant.tag = Some(Tag { class: TagClass::Universal, number: own });
+            out.push(Fields { comps: vec![redundant, comp("f1", other.clone(), Presence::Mandatory)], root: None });
         }
     }
     out
